@@ -61,6 +61,7 @@ func (e *Engine) verifyFunctionOnce(fn *ssa.Function, con *Contract, pathLimit i
 		res.File = con.File
 	}
 	x := &Exec{eng: e, root: fn, con: con, limit: pathLimit}
+	curExec = x
 	defer func() {
 		if r := recover(); r != nil {
 			switch er := r.(type) {
